@@ -232,7 +232,7 @@ pub fn run(ctx: &Ctx) {
         check_inv,
     );
     let max_len = t.pick(400usize, 1500);
-    let n = t.pick(100_000u64, 3_000_000);
+    let n = t.pick(200_000u64, 3_000_000);
     ctx.generated("random", "inv", n, "1..max digits, scales +-2000, both signs, p weighted to 1..5 and 100", move || free_strategy(max_len), check_inv);
     ctx.generated(
         "machine-word-coefficients",
